@@ -6,7 +6,7 @@
    (Maven's rules R1-R9, independent of the model).  XML decoding is outside the model; the real
    Maven binary is tied only through the transcribed specification. *)
 From DepsDev Require Import Lib.Base Gen.PomTables Maven.Pom Maven.Interp Maven.Project Maven.Witnesses.
-From DepsDev Require Maven.Interp_proofs Maven.Project_proofs Maven.Imports_proofs Maven.Pipeline_proofs Maven.Total_proofs.
+From DepsDev Require Maven.Interp_proofs Maven.Project_proofs Maven.Imports_proofs Maven.Pipeline_proofs Maven.Total_proofs Maven.Fragment_proofs.
 From DepsDev Require Spec.MavenModelSpec.
 
 (* ================= termination clause: ALL property tables, ALL strings ================= *)
@@ -199,6 +199,38 @@ Theorem C15_refines_selection_partial : forall ls : list (list dependency),
 Proof. exact Project_proofs.selection_refines. Qed.
 Print Assumptions C15_refines_selection_partial.
 
+(* ... and the hypothesis cannot be dropped: one POM declaring g:a twice (versions 1 and 2) - the Go
+   dedupe keeps 1, Maven's selection 2.  The same lineage run through the whole pipeline on the Go
+   code is the witness of F-C15-1 (known/C15.jsonl, replayed on every run). *)
+Theorem C15_refines_selection_refuted :
+  let ls := [[Project_proofs.dep_ga [49]; Project_proofs.dep_ga [50]]] in
+  dedupe_into [] (concat ls)
+  <> map MavenModelSpec.with_type (MavenModelSpec.select (concat ls) (flat_map (fun lv => rev lv) ls)).
+Proof. exact Project_proofs.selection_differs. Qed.
+Print Assumptions C15_refines_selection_refuted.
+
+(* Dependency-management injection, for EVERY project and EVERY lookup of imported management:
+   ProcessDependencies yields the first declaration of every dependency, each changed exactly by
+   the rule - own version / scope / exclusions win, the managed entry's value fills an empty one,
+   the optional flag, group, artifact, type and classifier are never managed, no managed entry no
+   change - against the managed list it also returns, which has one entry per identity. *)
+Theorem C15_injection_rule : forall get (p : project) deps m,
+  process_dependencies get p = Ok (deps, m) ->
+  NoDup (map dep_key m) /\
+  Forall2 (Imports_proofs.injection_rule m) (dedupe_into [] (p_deps p)) deps.
+Proof. exact Imports_proofs.process_dependencies_injection. Qed.
+Print Assumptions C15_injection_rule.
+
+(* the rule at work: own exclusions survive a managed entry, empty ones are filled; version and
+   scope likewise; optional stays *)
+Example C15_injection_rule_example :
+  let dm := mkDep [103] [97] [50] s_jar [] [116] [116;114;117;101] [([120], [121])] in
+  let own := mkDep [103] [97] [] [] [] [] [] [([104], [42])] in
+  let bare := mkDep [103] [97] [49] [] [] [114] [] [] in
+  fill_in [dm] own = mkDep [103] [97] [50] [] [] [116] [] [([104], [42])] /\
+  fill_in [dm] bare = mkDep [103] [97] [49] [] [] [114] [] [([120], [121])].
+Proof. exact Imports_proofs.injection_rule_inhabited. Qed.
+
 (* R8: the fill-in of ProcessDependencies is Maven's injection; only empty fields change *)
 Theorem C15_management_fill_in : forall m d, fill_in m d = MavenModelSpec.inject m d.
 Proof. exact Project_proofs.fill_in_is_inject. Qed.
@@ -247,6 +279,40 @@ Theorem C15_documented_order :
   order_example_mergeParents = model_order_mergeParents /\
   order_resolve_fetchMavenParents = model_order_mergeParents.
 Proof. exact Pipeline_proofs.documented_order. Qed.
+
+(* ================= a whole-pipeline fragment ================= *)
+(* A self-contained POM - no parent, no profiles, no import-scoped entry - whose texts hold no
+   dollar sign (hence no placeholder), every entry with group and artifact, no identity declared
+   twice (Fragment_proofs.simple_pom).  For EVERY such POM, every JDK oracle, setting and
+   repository the whole model pipeline (MergeProfiles, mergeParents, Interpolate,
+   ProcessDependencies) has this closed form: the managed list is the declared one with the
+   default type made explicit, the dependencies are the declared ones injected from it. *)
+Theorem C15_pipeline_on_simple_pom : forall (J : bytes -> bytes -> res bool) jdk os repo (p : project),
+  Fragment_proofs.simple_pom p ->
+  effective J jdk os repo p = Ok (Fragment_proofs.result_of p).
+Proof. exact Fragment_proofs.model_on_simple. Qed.
+Print Assumptions C15_pipeline_on_simple_pom.
+
+(* On text without a dollar sign both interpolations - the Go scanner with its resolving set and
+   the specification's substitution rounds - are the identity and report success, whatever the
+   property tables. *)
+Theorem C15_interpolation_agrees_plain : forall (dc : dict) (t : MavenModelSpec.table) (d : dependency),
+  Fragment_proofs.plain_dep d ->
+  interp_dep dc d = Ok (d, true) /\ MavenModelSpec.resolve_dep t d = (d, true).
+Proof. exact Fragment_proofs.interpolation_agrees_plain. Qed.
+Print Assumptions C15_interpolation_agrees_plain.
+
+(* PARTIAL towards "model pipeline = specification" on this fragment: the model side is the theorem
+   above; for the specification the interpolation step is proved (previous theorem) and selection,
+   injection and the import rule are the piece theorems further up; NOT yet composed on the
+   specification side: its cycle test of the property table, its validation step (finish) and the
+   concluding step (conclude) on such a POM.  The example is an inhabitant of the fragment on which the
+   specification is evaluated and gives exactly the closed form. *)
+Example C15_simple_pom_example :
+  Fragment_proofs.simple_pom Fragment_proofs.ex_simple /\
+  forall J, MavenModelSpec.effective J [49;49] (mkOS [108] [] [] []) [] Fragment_proofs.ex_simple
+            = MavenModelSpec.SOk (Fragment_proofs.result_of Fragment_proofs.ex_simple).
+Proof. exact (conj Fragment_proofs.ex_simple_ok (fun J => proj1 (Fragment_proofs.ex_simple_spec J))). Qed.
 
 (* ================= the full statement, and why it does not hold ================= *)
 
